@@ -149,3 +149,63 @@ package upstream
 //@ requires[config:static-code-is-a-status-code] 100 <= s.code && s.code <= 999
 //@ at call WriteHeader assert[answers-with-the-configured-code] arg(WriteHeader, 0) == s.code
 
+
+// ------------------------------------------------------------------ C17: the file upstream serves the request it was given, from the configured directory,
+// with the prefix handling the operator configured
+//@ nonnil fileServer.handler
+//@ stable fileServer.*
+//@ prop C17 C19
+//@ scan[file-server-fields-written-by-its-constructor] field-writers fileServer.* pkg/upstream.newFileServer
+//@ scan[nonnil:file-servers-allocated-by-the-constructor] alloc-of pkg/upstream.fileServer pkg/upstream.newFileServer
+
+//@ func (*fileServer).ServeHTTP
+//@ prop C17
+//@ at call ServeHTTP assert[the-file-handler-gets-request-and-writer-unchanged] recv(ServeHTTP) == u.handler && arg(ServeHTTP, 0) == rw
+//@     && arg(ServeHTTP, 1) == req
+//@ ensures[always-served] called(ServeHTTP)
+
+//@ func newFileServer
+//@ prop C17 C19
+//@ at call StripPrefix assert[without-rewrite-the-configured-path-prefix-is-stripped] upstream.RewriteTarget == "" && arg(StripPrefix, 0) == upstream.Path
+//@     && arg(StripPrefix, 1) == ret(newFileServerForPath)
+//@ at call requestURIToURL assert[with-rewrite-the-rewritten-request-uri-decides] upstream.RewriteTarget != "" && arg(requestURIToURL, 0) == ret(newFileServerForPath)
+//@ at call newFileServerForPath assert[files-from-the-configured-directory] arg(newFileServerForPath, 0) == fileSystemPath
+//@ ensures[nonnil:a-file-server-with-a-handler] result != nil && typeis(result, "*fileServer") && as(result, "*fileServer").handler != nil
+//@     && as(result, "*fileServer").upstream == upstream.ID
+
+//@ func requestURIToURL
+//@ prop C17 C19
+//@ fresh
+//@ ensures[nonnil:a-handler] result != nil
+
+//@ func newFileServerForPath
+//@ prop C17 C19
+//@ ensures[nonnil:a-handler] result != nil
+
+// the wrapper used with a rewrite target: the (rewritten) RequestURI becomes the URL the file server sees; an unparsable one is a 500
+//@ func requestURIToURL$1
+//@ safety
+//@ prop C17 C19
+//@ at call ServeHTTP assert[served-with-the-parsed-request-uri] recv(ServeHTTP) == handler && arg(ServeHTTP, 0) == rw && arg(ServeHTTP, 1) == req
+//@     && ret1(ParseRequestURI) == nil && req.URL == ret0(ParseRequestURI) && arg(ParseRequestURI, 0) == req.RequestURI
+//@ ensures[unparsable-request-uri-is-a-500] called(ParseRequestURI) && ret1(ParseRequestURI) != nil ==> !called(ServeHTTP) && called(http.Error)
+//@     && arg(http.Error, 2) == 500
+
+// ------------------------------------------------------------------ C17: each upstream is registered with the handler built from ITS configuration
+//@ func (*multiUpstreamProxy).registerStaticResponseHandler
+//@ prop C17
+//@ ensures[registered-with-its-static-handler] result == ret(registerHandler) && arg(registerHandler, 1) == upstream
+//@     && arg(registerHandler, 2) == ret(newStaticResponseHandler) && arg(newStaticResponseHandler, 0) == upstream.ID
+//@     && arg(newStaticResponseHandler, 1) == upstream.StaticCode && arg(registerHandler, 3) == writer
+
+//@ func (*multiUpstreamProxy).registerFileServer
+//@ prop C17
+//@ ensures[registered-with-its-file-server] result == ret(registerHandler) && arg(registerHandler, 1) == upstream
+//@     && arg(registerHandler, 2) == ret(newFileServer) && arg(newFileServer, 0) == upstream && arg(newFileServer, 1) == old(u.Path)
+//@     && arg(registerHandler, 3) == writer
+
+//@ func (*multiUpstreamProxy).registerHTTPUpstreamProxy
+//@ prop C17
+//@ ensures[registered-with-its-reverse-proxy] result == ret(registerHandler) && arg(registerHandler, 1) == upstream
+//@     && arg(registerHandler, 2) == ret(newHTTPUpstreamProxy) && arg(newHTTPUpstreamProxy, 0) == upstream && arg(newHTTPUpstreamProxy, 1) == u
+//@     && arg(newHTTPUpstreamProxy, 2) == sigData && arg(registerHandler, 3) == writer
